@@ -235,7 +235,13 @@ func main() {
 	res := flag.String("results", "", "per-case result lines")
 	shard := flag.Int("shard", 0, "shard index")
 	shards := flag.Int("shards", 1, "number of shards")
+	mode := flag.String("mode", "", "deny: the cases of DenyFilters.tla through the real ipaccess / payloadlimit / faultinject filters (deny.go)")
+	workers := flag.Int("workers", 8, "mode deny: listeners driven in parallel")
 	flag.Parse()
+	if *mode == "deny" {
+		denyMain(*cases, *out, *res, *shard, *shards, *workers)
+		return
+	}
 	if !vh.HooksCompiled() {
 		vh.Must(fmt.Errorf("built without -tags verif"), "hooks")
 	}
